@@ -195,6 +195,36 @@ func c12r3(c *Ctx) {
 					if !ok {
 						continue
 					}
+					// an assignment of the whole object (`*b = builder{…}`) writes the joiner too: with what the literal says, or ""
+					if _, isFA := st.Addr.(*ssa.FieldAddr); !isFA && len(toString.Params) > 0 && types.Identical(st.Addr.Type(), toString.Params[0].Type()) {
+						val := "the zero value"
+						good := false
+						if ld, ok := st.Val.(*ssa.UnOp); ok {
+							if al, ok := ld.X.(*ssa.Alloc); ok && al.Referrers() != nil {
+								for _, ref := range *al.Referrers() {
+									if fa2, ok := ref.(*ssa.FieldAddr); ok && fieldName(fa2.X.Type(), fa2.Field) == f && fa2.Referrers() != nil {
+										for _, r2 := range *fa2.Referrers() {
+											if st2, ok := r2.(*ssa.Store); ok {
+												val = c.P.Env(fn).Term(st2.Val)
+												if k, ok := st2.Val.(*ssa.Const); ok {
+													if sv, ok := constStringVal(k.Value); ok && sv == sepP {
+														good = true
+													}
+												}
+											}
+										}
+									}
+								}
+							}
+						}
+						construct := "whole-object assignment sets ." + f + " to " + val
+						if good {
+							c.OK(rule, FuncName(fn), construct, c.P.InstrPos(st), "the builder's joiner is the parser's separator constant")
+						} else {
+							c.Fail(rule, "violation", FuncName(fn), construct, c.P.InstrPos(st), fmt.Sprintf("the builder's joiner is not constantly %q, on which the parsers split: after this assignment ToString joins with %s", sepP, val))
+						}
+						continue
+					}
 					fa, ok := st.Addr.(*ssa.FieldAddr)
 					if !ok || fieldName(fa.X.Type(), fa.Field) != f {
 						continue
